@@ -124,7 +124,7 @@ Lemma cinv_match_pat p : cinv (fun n => match_pat n p).
 Proof.
   intros n n' [ty v v' Hv | c v v' k k' Hv Hk]; cbn [match_pat]; [|reflexivity].
   destruct (tin ty T_Keyword).
-  - rewrite (HRl_up _ _ Hv). reflexivity.
+  - unfold knorm. rewrite (HRl_up _ _ Hv). reflexivity.
   - subst v'. reflexivity.
 Qed.
 
@@ -185,7 +185,7 @@ Qed.
 Lemma normalized_kw_rel n n' : R n n' -> is_kw n = true -> normalized n = normalized n'.
 Proof.
   intros [ty v v' Hv | c v v' k k' Hv Hk]; cbn [is_kw tt_in normalized]; [|discriminate].
-  intros K. rewrite K in *. apply HRl_up. exact Hv.
+  intros K. rewrite K in *. unfold knorm. rewrite (HRl_up _ _ Hv). reflexivity.
 Qed.
 
 Lemma leaf_nonkw_eq ty v n' : R (Leaf ty v) n' -> tin ty T_Keyword = false -> n' = Leaf ty v.
@@ -439,12 +439,13 @@ Lemma leaf_safe_kw e ty v v' : leaf_safe e = true -> tin ty T_Keyword = true -> 
   eval_tot e (Leaf ty v) = eval_tot e (Leaf ty v').
 Proof.
   intros Hs K Hv. pose proof (HRl_up _ _ Hv) as Hu.
+  assert (Hkn : knorm v = knorm v') by (unfold knorm; rewrite Hu; reflexivity).
   induction e as [| | | | |p|ty0|tys|ty0|cs|i m t| | | | |s|s|s|a IHa|a IHa b0 IHb|a IHa b0 IHb];
     cbn [leaf_safe] in Hs; try discriminate; cbn [eval_tot eval_attr_atom]; try reflexivity.
-  - (* TokenMatch *) cbn [match_pat]. rewrite K, Hu. reflexivity.
+  - (* TokenMatch *) cbn [match_pat]. rewrite K, Hkn. reflexivity.
   - (* Imt *) cbn [imt]. f_equal. f_equal. induction m as [|p m IHm]; cbn [existsb]; [reflexivity|].
-    rewrite IHm. f_equal. cbn [match_pat]. rewrite K, Hu. reflexivity.
-  - (* NormalizedEq *) cbn [normalized]. rewrite K, Hu. reflexivity.
+    rewrite IHm. f_equal. cbn [match_pat]. rewrite K, Hkn. reflexivity.
+  - (* NormalizedEq *) cbn [normalized]. rewrite K, Hkn. reflexivity.
   - (* ValueUpperEq *) cbn [nvalue]. rewrite Hu. reflexivity.
   - rewrite IHa by exact Hs. reflexivity.
   - apply andb_true_iff in Hs. destruct Hs as [Ha Hb]. rewrite IHa, IHb by assumption. reflexivity.
@@ -613,9 +614,10 @@ Proof.
   destruct (imt (Some a) i1 [] t1); [apply group_then, Hm | apply keep_rel, Hm].
 Qed.
 
-(* ---- group_functions: the one case-sensitive test ---------------------------------------------------
-   needs: related nodes agree on `value.upper() == s` (true when Rg implies equal upper-casings) and
-   on `value == 'AS'` (the guard) *)
+(* ---- group_functions -----------------------------------------------------------------------------------
+   needs: related nodes agree on `value.upper() == s` (true when Rg implies equal upper-casings); the third
+   test was `value == 'AS'` (case-sensitive, finding C11-as-case) until the fix in /repo made it
+   `value.upper() == 'AS'` like the other two *)
 Definition vinv (q : text -> bool) : Prop := forall n n', R n n' -> q (nvalue n) = q (nvalue n').
 
 Lemma existsb_vinv q l l' : vinv q -> LR l l' ->
@@ -627,7 +629,7 @@ Qed.
 
 Lemma f_functions_rel s1 s2 s3 t1 isa1 isa2 cls1 :
   vinv (fun v => text_eqb (upper v) s1) -> vinv (fun v => text_eqb (upper v) s2) ->
-  vinv (fun v => text_eqb v s3) ->
+  vinv (fun v => text_eqb (upper v) s3) ->
   frel (f_functions_of s1 s2 s3 t1 isa1 isa2 cls1).
 Proof.
   intros V1 V2 V3 c l l' H. unfold f_functions_of.
